@@ -195,6 +195,91 @@ def proof_step(ctx, extra_targets=()):
     return res
 
 
+class PyCoverage(object):
+    """line coverage of the real library (the anchor files of the property) while the
+    correspondence and the python-only oracles run: which functions of the anchored code the tie
+    between model and code actually reached in this run.  Measurement only, never a verdict."""
+
+    def __init__(self, prop):
+        self.prop = prop
+        self.cov = None
+        self.files = []
+        self.names = set()
+        try:
+            for line in open(os.path.join(VERIF, 'properties.jsonl')):
+                p = json.loads(line)
+                if p['id'] == prop:
+                    self.files = [f for f in p['anchors']['files'] if f.endswith('.py')]
+                    import re
+                    text = ' '.join(m.get('name', '') for m in p['anchors'].get('mechanism', []))
+                    self.names = set(t for t in re.findall(r'[A-Za-z_][A-Za-z_0-9]*', text)
+                                     if len(t) > 3)
+        except Exception:  # pylint: disable=broad-except
+            pass
+
+    def start(self):
+        if os.environ.get('VERIF_PYCOV') == '0' or not self.files:
+            return
+        try:
+            os.environ.setdefault('COVERAGE_CORE', 'sysmon')
+            import coverage
+            import mongomock
+            root = os.path.dirname(os.path.dirname(os.path.abspath(mongomock.__file__)))
+            self.root = root
+            self.cov = coverage.Coverage(data_file=None, branch=False,
+                                         include=[os.path.join(root, f) for f in self.files])
+            self.cov.start()
+        except Exception:  # pylint: disable=broad-except
+            self.cov = None
+
+    def stop(self):
+        """{file: {lines, executed, functions, functions_never_entered: [...]}}"""
+        if self.cov is None:
+            return None
+        import ast
+        out = {}
+        try:
+            self.cov.stop()
+            data = self.cov.get_data()
+            for f in self.files:
+                path = os.path.join(self.root, f)
+                try:
+                    _, stmts, _, missing, _ = self.cov.analysis2(path)
+                except Exception:  # pylint: disable=broad-except
+                    continue
+                hit = set(stmts) - set(missing)
+                never, nfun, anchored = [], 0, {}
+                tree = ast.parse(open(path).read())
+
+                def walk(node, prefix):
+                    nonlocal nfun
+                    for ch in ast.iter_child_nodes(node):
+                        if isinstance(ch, (ast.FunctionDef, ast.AsyncFunctionDef)):
+                            nfun += 1
+                            body = set()
+                            for st in ch.body:
+                                body.update(range(st.lineno, (st.end_lineno or st.lineno) + 1))
+                            body &= set(stmts)
+                            if body and not (body & hit):
+                                never.append(prefix + ch.name)
+                            if body and ch.name in self.names:
+                                anchored[prefix + ch.name] = '%d/%d' % (len(body & hit), len(body))
+                            walk(ch, prefix + ch.name + '.')
+                        elif isinstance(ch, ast.ClassDef):
+                            walk(ch, prefix + ch.name + '.')
+                        else:
+                            walk(ch, prefix)
+                walk(tree, '')
+                out[f] = {'statements': len(stmts), 'executed': len(hit),
+                          'percent': round(100.0 * len(hit) / max(1, len(stmts)), 1),
+                          'functions': nfun, 'functions_never_entered': never,
+                          'anchored_functions_statements_executed': anchored}
+            del data
+        except Exception as e:  # pylint: disable=broad-except
+            return {'error': repr(e)}
+        return out
+
+
 def load_known(prop):
     path = os.path.join(VERIF, 'known_findings.json')
     if not os.path.exists(path):
